@@ -638,6 +638,31 @@ fn c12l_profile(index: u64) -> Profile {
     p
 }
 
+fn c12l_post(plan: &mut LPlan, seed: u64) {
+    use crate::lsim::plan::{Action, TimedAction};
+    sel_l_post(plan, seed);
+    // one run in three: a link is black-holed under load with the guard on (it gets pulled /
+    // latched / gated), a reload leaves it as the only link, then the guard is switched off
+    let mut r = crate::prng::Rng::new(seed ^ 0xC12);
+    if r.chance(0.33) {
+        let (lo, hi) = traffic_window(plan);
+        let l = r.below(plan.n_links as u64) as usize;
+        let t1 = r.range(lo + 200, (lo + 4000).min(hi.saturating_sub(3000)).max(lo + 201));
+        plan.cfg.stall_guard = true;
+        plan.actions.retain(|a| !matches!(&a.kind, Action::Control { line } if line.contains("stall")));
+        plan.actions.push(TimedAction { t: t1, kind: Action::Blackhole { link: l, up: true, down: true, on: true } });
+        let t2 = t1 + r.range(400, 2500);
+        plan.actions.push(TimedAction { t: t2, kind: Action::Reload { text: Some(format!("{}\n", crate::lsim::path_ip(l))) } });
+        if r.chance(0.7) {
+            plan.actions.push(TimedAction {
+                t: t2 + r.range(1100, 2500),
+                kind: Action::Control { line: r#"{"jsonrpc":"2.0","method":"set_stall_deselect","params":{"enabled":false}}"#.into() },
+            });
+        }
+        plan.actions.sort_by_key(|a| a.t);
+    }
+}
+
 fn sel_l_post(plan: &mut LPlan, seed: u64) {
     use crate::lsim::plan::{Action, TimedAction};
     c04_post(plan, seed);
@@ -1147,6 +1172,13 @@ pub fn all() -> Vec<Box<dyn Check>> {
         });
         v.insert(pos, Box::new(Multi { id: "C03", parts: vec![k, l], weights: vec![20, 1] }));
     }
+    // C08: engine L (the whole recovery loop, long horizons) plus the tear-down cause on the real loop
+    {
+        let pos = v.iter().position(|c| c.id() == "C08").unwrap();
+        let l = v.remove(pos);
+        let w = Box::new(WCheck { prop: "C08", runs_quick: 60, runs_thorough: 3000 });
+        v.insert(pos, Box::new(Multi { id: "C08", parts: vec![l, w], weights: vec![6, 1] }));
+    }
     // C19: engine L (exact snapshots around the real apply call) plus the real loop's SIGHUP arm and apply glue
     {
         let pos = v.iter().position(|c| c.id() == "C19").unwrap();
@@ -1162,7 +1194,7 @@ pub fn all() -> Vec<Box<dyn Check>> {
             id: "C12",
             level: "exploration",
             profile: c12l_profile,
-            post: Some(sel_l_post),
+            post: Some(c12l_post),
             monitors: || vec![Box::new(crate::mon::sel_l::C12L::new()) as Box<dyn Monitor>],
             quick_runs: 60,
             thorough_runs: 6_000,
